@@ -680,9 +680,14 @@ class Interp:
                 s2.trace.append("cmp(%r,%r)=%d" % (x, y, o))
                 if o == 0:
                     sy, sx = y.single_symbol(), x.single_symbol()
+                    # (a symbol known non-zero stays non-zero under its new name)
                     if sy is not None:
+                        if sy in s2.nz:
+                            s2.nzp.add(repr(x))
                         s2.substitute(sy, x)
                     elif sx is not None:
+                        if sx in s2.nz:
+                            s2.nzp.add(repr(y))
                         s2.substitute(sx, y)
                     else:
                         raise Unsupported("equality of compound terms")
